@@ -43,4 +43,10 @@ theorem colon_only_in_hosts :
     (restM ++ restN).all (fun e => e.1 == 0 || e.1 == 4 || e.2.all fun b => b != 58) = true := by
   decide +kernel
 
+/-- no probed string (all 2-byte strings, 3-byte spot checks, valid 2/3/4-byte UTF-8 encodings of code points of every
+    low-byte class, alone / after / before / inside ASCII) is treated by the real `isValidPart` other than byte-wise -/
+theorem no_odd_strings :
+    oddM = (List.range 5).map (fun k => (k, [])) ∧ oddN = (List.range 4).map (fun k => (k, [])) := by
+  constructor <;> decide
+
 end OllamaVerif.Tie.C13
